@@ -74,6 +74,41 @@ example : (match newSimple poscDb (S "length") (S "m"), newSimple poscDb (S "dep
         == .ok ⟨3, ⟨qs, .tuple [.num 100, .num 200, .num 5]⟩⟩
     | _, _ => false) = true := by decide +kernel
 
+/-- `Scalar(3.048, 'm', 'length').CreateCopy(unit='ft', category='depth')`: 10 ft, category depth;
+with the own category the same number as without a category -/
+example : (match newSimple poscDb (S "length") (S "m") with
+    | .ok q =>
+      (match (Scalar.mk q (R 381 125)).createCopy poscDb none (some (S "ft")) (some (S "depth")),
+             (Scalar.mk q (R 381 125)).createCopy poscDb none (some (S "ft")) (some (S "length")),
+             (Scalar.mk q (R 381 125)).createCopy poscDb none (some (S "ft")) none with
+       | .ok s, .ok s1, .ok s2 => s.q.category == S "depth" && s.q.qtype == S "length" && s.q.unit == S "ft"
+           && s.value == 10 && s1.value == 10 && s1.q.category == S "length" && s1 == s2
+       | _, _, _ => false)
+    | .error _ => false) = true := by decide +kernel
+
+/-- the Array form, list of tuples, other category -/
+example : (match newSimple poscDb (S "temperature") (S "degC") with
+    | .ok q =>
+      (match (Arr.mk q (mkTuples false [[0, 100], [-40]])).createCopy poscDb none (some (S "degF"))
+          (some (S "thermodynamic temperature")) with
+       | .ok a => a.values == mkTuples false [[32, 212], [-40]] && a.q.category == S "thermodynamic temperature"
+       | .error _ => false)
+    | .error _ => false) = true := by decide +kernel
+
+/-- a manager history: convert, `SetDefaultUnit` on the current system, the same request again, switch to
+another system and back: 2.5 m is 250 cm, then 1/400 km, then 2500 mm, then 1/400 km again -/
+example : (Mgr.run poscDb Mgr.new
+      [.add (S "s1") [(S "length", S "cm")], .convert (S "length") (S "m") (.num (R 5 2)),
+       .setDefaultUnit none (S "length") (S "km"), .convert (S "length") (S "m") (.num (R 5 2)),
+       .add (S "s2") [(S "length", S "mm")], .setCurrent (some (S "s2")), .convert (S "length") (S "m") (.num (R 5 2)),
+       .setCurrent (some (S "s1")), .convert (S "length") (S "m") (.list [.num (R 5 2)]),
+       .removeCategory none (S "length"), .convert (S "length") (S "m") (.num (R 5 2))]).2
+    = [.ok (.state [(S "length", S "cm")]), .ok (.conv (.num 250) (S "cm")),
+       .ok (.state [(S "length", S "km")]), .ok (.conv (.num (R 1 400)) (S "km")),
+       .ok (.state [(S "length", S "km")]), .ok (.state [(S "length", S "mm")]), .ok (.conv (.num 2500) (S "mm")),
+       .ok (.state [(S "length", S "km")]), .ok (.conv (.list [.num (R 1 400)]) (S "km")),
+       .ok (.state []), .ok (.conv (.num (R 5 2)) (S "m"))] := by decide +kernel
+
 end examples
 
 end Barril.Routes
